@@ -134,7 +134,10 @@ int main(void) {
   P("sizeofSsize", sizeof(ssize_t));
   P("sizeofSize", sizeof(size_t));
   /* --- thread-safe lock depth counter (C13) */
-  P("uintMaxOfLockDepth", UINT_MAX);
+#if COAP_THREAD_SAFE
+  P("lockCountBits", 8 * sizeof(((coap_lock_t *)0)->lock_count));
+  P("lockInCallbackBits", 8 * sizeof(((coap_lock_t *)0)->in_callback));
+#endif
   printf("}\n");
   return 0;
 }
